@@ -82,7 +82,7 @@ def check_spec(specname, N, fixed=None, qtimeout_ms=30000, use_pre=True, want_mo
     if any(a.depth > 1 for a in sp.args):
         res['status'] = 'skipped'; res['detail'] = 'pointer-to-pointer argument (covered by a dedicated harness)'
         return res
-    if not k.definition.strip():
+    if not k.definition.strip() or k.definition.strip().startswith('Insert Python definition here'):
         res['status'] = 'no-definition'; return res
     fps = fp_sort_for(sp)
     try:
@@ -398,15 +398,21 @@ def main(report, tier):
     only = __import__('os').environ.get('VERIF_ONLY')
     if only:
         specs = [s for s in specs if any(x in s.name for x in only.split(','))]
-    plans = runner.run_tasks([(check_spec, (s.name, N, None, 10000, True, False, True), 120) for s in specs])
+    plans = runner.run_tasks([(check_spec, (s.name, N, None, 10000, True, False, True), 60) for s in specs])
     jobs, static = [], []
     for p in plans:
         if p['status'] == 'plan':
             for case in plan_cases(p, N):
-                jobs.append((check_spec, (p['unit'], N, case, qt), 300 if tier == 'quick' else 900))
+                jobs.append((check_spec, (p['unit'], N, case, qt), 90 if tier == 'quick' else 900))
         else:
             static.append(p)
     results = runner.run_tasks(jobs)
+    try:
+        import json, os
+        with open(os.path.join(runner.VERIF, '.cache', 'C13_tasks_%s.json' % tier), 'w') as f:
+            json.dump([dict(unit=r['unit'], fixed=r.get('fixed'), status=r['status'], wall_s=r['wall_s'], detail=r.get('detail')) for r in results + plans], f)
+    except OSError:
+        pass
     return summarize(report, tier, N, specs, static, results)
 
 
